@@ -71,7 +71,11 @@ class Creators:
       if gfapy.is_placeholder(key):
         key = id(gfa_line)
       elif key.isdigit():
-        keynum = int(key)
+        try:
+          keynum = int(key)
+        except ValueError:
+          # not a decimal number (e.g. superscript digits) or too many digits
+          keynum = 0
         if keynum > self._max_int_name:
           self._max_int_name = keynum
       self._records[gfa_line.record_type][key] = gfa_line
